@@ -197,6 +197,8 @@ def rule_remove_idx(ctx, crate, rule="R-MULTI-REMOVE"):
         if not sl.has_field("free_set", MS):
             continue
         uses_idx = 2 in sl.params() or any(a[0] == "closure" for a in sl.atoms)
+        if any(sb in b.reach_after(e) or sb == e for e in effect_bbs):
+            continue  # only an entry guard (evaluated before any effect) can make the call a no-op
         for x in b.succ(sb):
             # the "already free" edge: reaches the return without any effect
             if uses_idx and not (b.reach([x]) & effect_bbs):
